@@ -17,9 +17,11 @@ CONSTANTS
   SubCodesMatch = TRUE
   BlockersBypass = TRUE
   AssumeNoCrossCodeDups = TRUE
+  NotesInheritOrigin = TRUE
 INVARIANT Exactness
 INVARIANT DisableExact
 INVARIANT OutputExactness
+INVARIANT AttachedExact
 INVARIANT UnusedExact
 INVARIANT ExitCode
 INVARIANT Emit
